@@ -246,6 +246,31 @@ func genC19(t *rapid.T) *C19Case {
 			}
 		})
 	})
+	// a wide declaration unit: many named options in one struct (duplicate
+	// detection and the scan must not depend on how many names came before)
+	wide := false
+	if len(d.Root.G.Groups) > 0 && rapid.IntRange(0, 19).Draw(t, "wideUnit") == 0 {
+		wide = true
+		g0 := &d.Root.G.Groups[0]
+		used := map[string]bool{"h": true}
+		for _, o := range d.AllOpts() {
+			used[o.Short] = true
+		}
+		runes := []rune("abcdefgijklmnopqrstuvwxyzABCDEFGHIJKLMNOPQRSTUVWXYZ0123456789")
+		for i, n := 0, 8+uniformInt(t, "wideN", 17); i < n; i++ {
+			o := Opt{ID: fmt.Sprintf("w%d", i), Field: fmt.Sprintf("W%d", i), Kind: rapid.SampledFrom([]Kind{KString, KInt, KBool}).Draw(t, "wideKind")}
+			if rapid.IntRange(0, 3).Draw(t, "wideLong") != 0 {
+				o.Long = fmt.Sprintf("wide%d", i)
+			}
+			if r := string(runes[i%len(runes)]); !used[r] && (o.Long == "" || rapid.Bool().Draw(t, "wideShort")) {
+				o.Short, used[r] = r, true
+			}
+			if o.Long == "" && o.Short == "" {
+				o.Long = fmt.Sprintf("wide%d", i)
+			}
+			g0.Options = append(g0.Options, o)
+		}
+	}
 	// one injected fault (or none)
 	opts := d.AllOpts()
 	if len(opts) == 0 {
@@ -253,7 +278,11 @@ func genC19(t *rapid.T) *C19Case {
 	}
 	pick := func(label string) *Opt { return opts[rapid.IntRange(0, len(opts)-1).Draw(t, label)].Opt }
 	sp := &speller{seed: c.SpellSeed ^ 0xabcdef}
-	switch rapid.IntRange(0, 9).Draw(t, "fault") {
+	fault := rapid.IntRange(0, 9).Draw(t, "fault")
+	if wide && rapid.IntRange(0, 2).Draw(t, "wideDup") != 0 {
+		fault = 4
+	}
+	switch fault {
 	case 0: // decoys: repeated single-valued keys, earlier values must lose
 		o := pick("decoyOpt")
 		tag := ""
